@@ -421,10 +421,10 @@ def setter_values():
     return sorted(out)
 
 
-def setter_corpus(eng):
-    """native setter sweep (harness/setter_corpus.c)"""
+def setter_corpus(eng, limit=False):
+    """native setter sweep (harness/setter_corpus.c); limit=True: the same sweep under limits (C09)"""
     from engine import Unit
-    u = Unit("default", ["vk_setter_sweep"])
+    u = Unit("default", ["vk_setter_sweep", "vk_setter_limit"])
     obj = eng.native_obj(u)
     cpath = os.path.join(eng.work, "corpus_full.bin")
     if not os.path.exists(cpath):
@@ -445,7 +445,7 @@ def setter_corpus(eng):
     r = subprocess.run([CLANGXX, "-no-pie", o, obj, "-o", exe, "-lpthread"], capture_output=True, text=True)
     if r.returncode != 0:
         return {"error": "link: " + r.stderr[-400:]}
-    r = subprocess.run([exe, cpath, vpath], capture_output=True, text=True, errors="replace", timeout=1200)
+    r = subprocess.run([exe, cpath, vpath] + (["L"] if limit else []), capture_output=True, text=True, errors="replace", timeout=2400)
     m = re.search(r"SETTERCORPUS runs=(\d+) bad=(\d+)", r.stdout)
     if not m:
         return {"error": f"rc={r.returncode} " + (r.stdout + r.stderr)[-300:]}
